@@ -45,16 +45,18 @@ type gvar struct {
 }
 
 type gram struct {
-	r     *rand.Rand
-	vars  []gvar
-	n     int
-	q     string // qualifier of declared types/functions ("" in scripts, "G." in transactions using contract G)
-	depth int
-	loops int
-	funcs []string // helper function names (Int, Int) -> Int
-	chain int      // number of interfaces in the struct interface chain
-	fq    string   // qualifier of contract-level functions inside the contract's own declarations
-	inTpl int      // > 0 while generating inside a string template (templates must not nest: parser finding F12)
+	r          *rand.Rand
+	vars       []gvar
+	n          int
+	q          string // qualifier of declared types/functions ("" in scripts, "G." in transactions using contract G)
+	depth      int
+	loops      int
+	funcs      []string   // helper function names (Int, Int) -> Int
+	chain      int        // number of interfaces in the struct interface chain
+	putParams  []mixParam // parameters of RI.put (mixed resource / non-resource, random order)
+	takeParams []mixParam // parameters of I0.take
+	fq         string     // qualifier of contract-level functions inside the contract's own declarations
+	inTpl      int        // > 0 while generating inside a string template (templates must not nest: parser finding F12)
 }
 
 func (g *gram) fresh(p string) string { g.n++; return fmt.Sprintf("%s%d", p, g.n) }
@@ -111,6 +113,9 @@ func (g *gram) expr(t gtype, d int) string {
 			}
 			return g.leaf(t)
 		case 8:
+			if len(g.takeParams) > 0 && r.Intn(2) == 0 {
+				return g.expr([]gtype{tS, tI}[r.Intn(2)], d+1) + ".take(" + g.mixArgs(g.takeParams) + ")"
+			}
 			return g.expr(tS, d+1) + ".f(" + g.expr(tInt, d+1) + ")"
 		case 9:
 			return g.expr(tI, d+1) + "." + []string{"f(" + g.expr(tInt, d+1) + ")", "g()"}[r.Intn(2)]
@@ -476,6 +481,9 @@ var resourceScenarios = []string{
 	"var $A <- $Mmk(1)\nvar $B <- $Mmk(2)\n$A <-> $B\nlet ref$A = &$A as &{$QRI}\nlog(ref$A.h($I))\ndestroy $A\ndestroy $B",
 	// remove attachment, cast through interface
 	"let $A <- attach $QBadge(level: 1) to <- $Mmk($I)\nlet $B: @{$QRI} <- $A\nif let back$B <- $B as? @$QR {\n    remove $QBadge from back$B\n    log(back$B[$QBadge] == nil)\n    destroy back$B\n} else {\n    panic(\"unreachable\")\n}",
+	// interface function with conditions and mixed resource / non-resource parameters, called directly and through an interface reference
+	"let $A <- $Mmk($I)\nlog($A.put($PUT1))\nlet ref$A = &$A as &{$QRI}\nlog(ref$A.put($PUT2))\nlog($A.total())\ndestroy $A",
+	"let $A: @{$QRI} <- $Mmk($I)\nlog($A.put($PUT1))\nlog($A.put($PUT2))\ndestroy $A",
 	// nested resource reached through references, moved out of the parent
 	"let $A <- $Mmk($I)\n$A.add(<- $Mmk($J))\nlet $B = &$A.kids[0] as &$QR\nlog($B.h(1))\nlet out$B <- $A.kids.remove(at: 0)\nlog(out$B.v)\ndestroy out$B\ndestroy $A",
 }
@@ -483,7 +491,7 @@ var resourceScenarios = []string{
 func (g *gram) resourceScenario(lvl int, sb *strings.Builder) {
 	t := resourceScenarios[g.r.Intn(len(resourceScenarios))]
 	rep := strings.NewReplacer("$A", g.fresh("r"), "$B", g.fresh("r"), "$Q", g.q, "$M", g.q+g.fq,
-		"$I", g.expr(tInt, 1), "$J", g.expr(tInt, 1), "$C", g.expr(tBool, 1))
+		"$I", g.expr(tInt, 1), "$J", g.expr(tInt, 1), "$C", g.expr(tBool, 1), "$PUT1", g.mixArgs(g.putParams), "$PUT2", g.mixArgs(g.putParams))
 	p := ind(lvl)
 	for _, line := range strings.Split(rep.Replace(t), "\n") {
 		sb.WriteString(p + line + "\n")
@@ -528,6 +536,7 @@ func (g *gram) decls() string {
 	// struct interface chain I0 <- I1 [<- I2]. Checker rules: at most one default implementation of f in the
 	// chain, and an interface below the one with the default may only re-declare f together with conditions.
 	g.chain = 2 + r.Intn(2)
+	g.takeParams = g.mixParams(false)
 	defaultAt := r.Intn(g.chain+1) - 1 // -1: no default implementation
 	gDefault := r.Intn(2) == 0
 	for i := 0; i < g.chain; i++ {
@@ -539,6 +548,7 @@ func (g *gram) decls() string {
 		fmt.Fprintf(&sb, "access(all) struct interface %s%s {\n", name, parent)
 		if i == 0 {
 			sb.WriteString("    access(all) var n: Int\n")
+			sb.WriteString("    access(all) fun take(" + mixDecl(g.takeParams) + "): Int {\n        " + g.cond("slot", "I0.take", false) + "\n    }\n")
 			if gDefault {
 				sb.WriteString("    access(all) view fun g(): Int { return 10 + self.n }\n")
 			} else {
@@ -585,13 +595,26 @@ func (g *gram) decls() string {
 		if !gDefault || r.Intn(2) == 0 {
 			fmt.Fprintf(&sb, "    access(all) view fun g(): Int { return self.n + %d }\n", si)
 		}
+		sb.WriteString("    access(all) fun take(" + mixDecl(g.takeParams) + "): Int {\n        var t = slot + self.n\n")
+		for _, p := range g.takeParams {
+			if p.kind == "res" {
+				sb.WriteString("        t = t + " + p.name + ".v\n        destroy " + p.name + "\n")
+			}
+		}
+		sb.WriteString("        return t\n    }\n")
 		sb.WriteString("}\n")
 	}
 	sb.WriteString("access(all) attachment Tag for S0 {\n    access(all) let k: Int\n    init(k: Int) { self.k = k }\n    access(all) fun show(): String { return \"tag \\(self.k) on \\(base.n)\" }\n}\n")
 	// resources
+	g.putParams = g.mixParams(true)
+	putDecl := "    access(all) fun put(" + mixDecl(g.putParams) + "): Int {\n        " + g.cond("slot", "RI.put", false) + "\n"
+	if r.Intn(2) == 0 {
+		putDecl += "        post { result >= before(slot): \"RI.put.post\" }\n"
+	}
+	putDecl += "    }\n"
 	riPre, riPost, riDefault := r.Intn(3) != 0, r.Intn(2) == 0, r.Intn(2) == 0
 	if !riPre && !riPost && !riDefault {
-		sb.WriteString("access(all) resource interface RI {\n    access(all) fun h(_ x: Int): Int\n}\n")
+		sb.WriteString("access(all) resource interface RI {\n    access(all) fun h(_ x: Int): Int\n" + putDecl + "}\n")
 	} else {
 		sb.WriteString("access(all) resource interface RI {\n    access(all) fun h(_ x: Int): Int {\n")
 		if riPre {
@@ -603,7 +626,7 @@ func (g *gram) decls() string {
 		if riDefault {
 			sb.WriteString("        log(\"RI.h default\")\n        return x + 100\n")
 		}
-		sb.WriteString("    }\n}\n")
+		sb.WriteString("    }\n" + putDecl + "}\n")
 	}
 	sb.WriteString("access(all) resource R: RI {\n    access(all) var v: Int\n    access(all) var kids: @[R]\n")
 	if r.Intn(3) != 0 {
@@ -614,6 +637,16 @@ func (g *gram) decls() string {
 	if !riDefault || r.Intn(3) == 0 {
 		sb.WriteString("    access(all) fun h(_ x: Int): Int {\n        self.v = self.v + 1\n        return x + self.v\n    }\n")
 	}
+	sb.WriteString("    access(all) fun put(" + mixDecl(g.putParams) + "): Int {\n")
+	for _, p := range g.putParams {
+		switch p.kind {
+		case "res":
+			sb.WriteString("        self.kids.append(<- " + p.name + ")\n")
+		case "optres":
+			sb.WriteString("        if let e <- " + p.name + " {\n            self.kids.append(<- e)\n        }\n")
+		}
+	}
+	sb.WriteString("        return slot + self.kids.length\n    }\n")
 	sb.WriteString("}\n")
 	sb.WriteString("access(all) attachment Badge for R {\n    access(all) let level: Int\n    init(level: Int) { self.level = level }\n    access(all) fun bonus(): Int { return base.v + self.level }\n}\n")
 	sb.WriteString("access(all) fun mk(_ v: Int): @R { return <- create R(v: v) }\n")
@@ -771,4 +804,59 @@ func debugReject(form, src string, ck Checked) {
 	if GrammarDebug != nil {
 		GrammarDebug(form, src, ck.Sema, ck.Err)
 	}
+}
+
+// mixParam is a parameter of an interface function whose parameter list mixes
+// resource and non-resource parameters in a random order (the wrappers that run
+// inherited pre/post conditions must treat every position correctly).
+type mixParam struct {
+	name string
+	kind string // int | str | res | optres
+}
+
+func (g *gram) mixParams(withOpt bool) []mixParam {
+	ps := []mixParam{{"slot", "int"}, {"item", "res"}}
+	if g.r.Intn(2) == 0 {
+		ps = append(ps, mixParam{"tag", "str"})
+	}
+	if g.r.Intn(3) == 0 {
+		ps = append(ps, mixParam{"more", "res"})
+	}
+	if withOpt && g.r.Intn(3) == 0 {
+		ps = append(ps, mixParam{"extra", "optres"})
+	}
+	g.r.Shuffle(len(ps), func(i, j int) { ps[i], ps[j] = ps[j], ps[i] })
+	return ps
+}
+
+func mixDecl(ps []mixParam) string {
+	var out []string
+	for _, p := range ps {
+		t := map[string]string{"int": "Int", "str": "String", "res": "@R", "optres": "@R?"}[p.kind]
+		out = append(out, p.name+": "+t)
+	}
+	return strings.Join(out, ", ")
+}
+
+// mixArgs renders the arguments of a call (m = qualifier of mk).
+func (g *gram) mixArgs(ps []mixParam) string {
+	var out []string
+	m := g.q + g.fq
+	for _, p := range ps {
+		switch p.kind {
+		case "int":
+			out = append(out, p.name+": "+g.expr(tInt, 2))
+		case "str":
+			out = append(out, p.name+": "+g.leaf(tStr))
+		case "res":
+			out = append(out, p.name+": <- "+m+"mk("+g.intLit()+")")
+		default:
+			if g.r.Intn(2) == 0 {
+				out = append(out, p.name+": nil")
+			} else {
+				out = append(out, p.name+": <- "+m+"mk("+g.intLit()+")")
+			}
+		}
+	}
+	return strings.Join(out, ", ")
 }
